@@ -1,6 +1,7 @@
 //! `wfh <family> <seed> <n> <outdir>`: runs the real winterfell crates on generated inputs.
 //! Writes `<outdir>/<family>.qa` (Q/A line pairs, see `out.rs`) and `<outdir>/<family>.stats.json`.
 mod c10;
+mod c11;
 mod c26;
 mod c27;
 mod out;
@@ -22,6 +23,7 @@ fn main() {
     let mut out = out::Out::new(&format!("{outdir}/{fam}.qa"));
     match fam {
         "c10" => c10::run(&mut rng, &mut out, n),
+        "c11" => c11::run(&mut rng, &mut out, n),
         "c26" => c26::run(&mut rng, &mut out, n),
         "c27" => c27::run(&mut rng, &mut out, n),
         "c27x" => c27::run_exhaustive(&mut out, n),
